@@ -161,23 +161,28 @@ func VF_C09_c_timestamp() {
 	// clock terms make the query non-linear
 	iv := int64(1 + vf.Choice("intervalSec", vf.Param("maxInterval", 3)))
 	slot.Init(iv)
-	ts := vf.I64("timestamp")
-	vf.Assume(ts < 1<<62)
-	vf.Assume(ts > -(1 << 62))
-	// Hash is preset: the rejection path only logs the block id, the id computation is not under test here
-	blk := &types.Block{Hash: make([]byte, 32), Header: &types.BlockHeader{Timestamp: ts, PubKey: []byte{0xff}}}
+	// the timestamp is taken RELATIVE to the clock (delta), so that a counterexample replays against the real clock
+	delta := vf.I64("delta")
+	vf.Assume(delta < 1<<40)
+	vf.Assume(delta > -(1 << 40))
 	d := &DPoS{}
 	t0 := time.Now().UnixNano()
+	vf.Assume(t0 >= 0)
 	vf.Assume(t0 < 1<<61) // the clock is far from the int64 horizon (2^61 ns = year 2043)
+	ts := t0 + delta
+	// Hash is preset: the rejection path only logs the block id, the id computation is not under test here
+	blk := &types.Block{Hash: make([]byte, 32), Header: &types.BlockHeader{Timestamp: ts, PubKey: []byte{0xff}}}
 	ok := d.VerifyTimestamp(blk)
 	t1 := time.Now().UnixNano()
-	vf.Assume(t1 < 1<<61)
-	vf.Reach("C09.c.timestamp")
 	const ms = 1000000
-	if ts >= t1+2*iv*1000*ms+ms {
+	vf.Assume(t1-t0 <= ms) // the call reads the clock within 1 ms of t0 (stated assumption; natively a slower run is "assumption failed")
+	vf.Reach("C09.c.timestamp")
+	// two or more slots ahead of every clock reading inside the call => refused (slot indices have 1 ms granularity)
+	if delta >= 2*iv*1000*ms+3*ms {
 		vf.Assert(!ok, "C09.c.timestamp")
 	}
-	if ts <= t0+iv*1000*ms-ms {
+	// less than one slot ahead of every clock reading => not "future"
+	if delta <= iv*1000*ms-3*ms {
 		vf.Assert(ok, "C09.c.timestamp")
 	}
 	vf.Observe("iv", iv)
